@@ -24,7 +24,7 @@ GRID = list(itertools.product([4, 8, 16], [True, False], MAGS, KINDS, DTS))
 
 
 def plan(tier):
-  return {'n_cases': len(GRID) + (1500 if tier == 'quick' else 60000), 'shards': 16}
+  return {'n_cases': len(GRID) + (1500 if tier == 'quick' else 300000), 'shards': 16}
 
 
 def setup(ctx):
